@@ -196,4 +196,76 @@ Proof.
     apply filter_In. split; [assumption|]. now apply Gd_true. }
   now apply in_Lspec_level.
 Qed.
+
+(* when the last of the |alts| levels is inhabited, every level is a singleton *)
+Lemma remaining_in k a : In a (remaining_after (Lspec k)) <-> In a alts /\ ~ In a (concat (Lspec k)).
+Proof. unfold remaining_after. rewrite filter_In, Gd_true. tauto. Qed.
+
+Lemma remaining_sub j k a : j <= k -> In a (remaining_after (Lspec k)) -> In a (remaining_after (Lspec j)).
+Proof.
+  intros Hjk. rewrite !remaining_in. intros [H1 H2]. split; [assumption|]. intros H. apply H2.
+  apply in_Lspec_level in H. destruct H as (i & Hi & Hl). apply (level_in_Lspec i k); [lia|assumption].
+Qed.
+
+Lemma at_level_remaining k a : at_level k a -> In a (remaining_after (Lspec k)).
+Proof. intros H. apply next_level_iff in H. destruct H as [G _]. apply remaining_in. now apply Gd_true. Qed.
+
+Lemma remaining_lower K : remaining_after (Lspec K) <> [] -> forall d j, j + d = K ->
+  length (remaining_after (Lspec j)) >= length (remaining_after (Lspec K)) + d.
+Proof.
+  intros HK. induction d as [|d IH]; intros j Hj.
+  - replace j with K by lia. lia.
+  - assert (Hne : remaining_after (Lspec j) <> []).
+    { destruct (remaining_after (Lspec K)) as [|a l] eqn:E; [congruence|].
+      assert (Ha : In a (remaining_after (Lspec K))) by (rewrite E; now left).
+      apply (remaining_sub j K) in Ha; [|lia]. intros E'. rewrite E' in Ha. contradiction. }
+    pose proof (remaining_shrinks j Hne). specialize (IH (S j) ltac:(lia)). lia.
+Qed.
+
+(* two distinct alternatives at the same level make the remaining set shrink by two *)
+Lemma filter_length_lt2 {T} (f g : T -> bool) l x y : NoDup l -> (forall z, f z = true -> g z = true) ->
+  In x l -> In y l -> x <> y -> g x = true -> f x = false -> g y = true -> f y = false ->
+  length (filter f l) + 2 <= length (filter g l).
+Proof.
+  intros Hnd Hfg. induction l as [|z l IH]; intros Hx Hy Hxy Gx Fx Gy Fy; [contradiction|]. inversion Hnd; subst.
+  assert (Hle : forall l', length (filter f l') <= length (filter g l')).
+  { induction l' as [|w l' IHl]; simpl; [lia|]. destruct (f w) eqn:Fw.
+    - rewrite (Hfg w Fw). simpl. lia.
+    - destruct (g w); simpl; lia. }
+  simpl. destruct Hx as [->|Hx], Hy as [->|Hy].
+  - congruence.
+  - rewrite Gx, Fx. simpl. pose proof (filter_length_lt f g l y Hfg Hy Gy Fy). lia.
+  - rewrite Gy, Fy. simpl. pose proof (filter_length_lt f g l x Hfg Hx Gx Fx). lia.
+  - specialize (IH H2 Hx Hy Hxy Gx Fx Gy Fy). destruct (f z) eqn:Fz; [rewrite (Hfg z Fz); simpl; lia|]. destruct (g z); simpl; lia.
+Qed.
+
+Theorem top_level_singletons a : at_level (length alts - 1) a ->
+  forall k x y, k < length alts -> at_level k x -> at_level k y -> x = y.
+Proof.
+  intros Ha k x y Hk Hx Hy. destruct (N.eq_dec x y) as [|Hxy]; [assumption|exfalso].
+  set (K := length alts - 1) in *.
+  assert (HK : remaining_after (Lspec K) <> []).
+  { intros E. pose proof (at_level_remaining K a Ha) as H. rewrite E in H. contradiction. }
+  assert (HKlen : length (remaining_after (Lspec K)) >= 1) by (destruct (remaining_after (Lspec K)); [congruence|simpl; lia]).
+  (* |R_k| >= |R_K| + (K - k) and |R_(k+1)| + 2 <= |R_k|, but |R_j| + j <= |alts| *)
+  pose proof (remaining_lower K HK (K - k) k ltac:(lia)) as Hlow.
+  pose proof (remaining_bound k ltac:(lia)) as Hup.
+  assert (H2 : length (remaining_after (Lspec (S k))) + 2 <= length (remaining_after (Lspec k))).
+  { unfold remaining_after. apply (filter_length_lt2 _ _ alts x y Halts).
+    - intros z Gz. apply Gd_true in Gz. apply Gd_true. split; [tauto|]. intros H. apply (proj2 Gz).
+      cbn [Lspec]. rewrite concat_app. apply in_or_app. now left.
+    - eapply level_alts; eauto.
+    - eapply level_alts; eauto.
+    - assumption.
+    - apply next_level_iff in Hx. tauto.
+    - destruct (Gd (Lspec (S k)) x) eqn:E; [|reflexivity]. apply Gd_true in E. exfalso. apply (proj2 E).
+      apply (level_in_Lspec k (S k)); [lia|assumption].
+    - apply next_level_iff in Hy. tauto.
+    - destruct (Gd (Lspec (S k)) y) eqn:E; [|reflexivity]. apply Gd_true in E. exfalso. apply (proj2 E).
+      apply (level_in_Lspec k (S k)); [lia|assumption]. }
+  destruct (Nat.eq_dec k K) as [->|HkK].
+  - (* k = K: |R_(K+1)| + 2 <= |R_K| <= |alts| - K = 1 *)
+    pose proof (remaining_bound K ltac:(lia)). lia.
+  - pose proof (remaining_lower K HK (K - S k) (S k) ltac:(lia)) as Hlow'. lia.
+Qed.
 End Levels.
